@@ -156,6 +156,12 @@ func buildC09(tier string, seed int64) *Family {
 	add("substring('#S1', 1, 0 div 0)", slenBig)
 	add("substring('#S1', -42, 1 div 0)", slenBig)
 	add("substring('#S1', -1 div 0, 1 div 0)", slenBig)
+	// calls evaluated once per candidate, with arguments that carry iteration state
+	for _, t := range []string{"//*[substring-after((//*)[2], 'a') = 'b']", "//*[contains((//*)[2], 'a')]", "//*[string-length((//*/*)[1]) = 2]", "count(//*[starts-with((//*)[2], 'a')])",
+		"//*[substring-before((//*)[2], 'b') = 'a']", "//*[concat((//*)[2], 'x') = 'abx']", "//*[normalize-space((//*)[2]) = 'a']", "//*[translate((//*)[2], 'a', 'b') = 'bb']",
+		"//*[lower-case((//*)[2]) = 'a1']", "//*[string((//*)[2]) = 'ab']", "//*[substring((//*)[2], 2) = 'b']", "//*[ends-with((//*/*)[1], 'b')]", "//*[string-join((//*)[2], '-') = 'ab']"} {
+		items = append(items, item{t, slen})
+	}
 	// seeded nesting (depth 2-3) with short strings
 	un := []string{"normalize-space", "lower-case", "string"}
 	for k := 0; k < nSeed; k++ {
